@@ -143,7 +143,7 @@ theorem cmb2_endBlockO_quiet {s s' : State} (hA : RetAll s) (hP : cmb2_PartsOK s
 /-- MsgDeposit, key by key: every record of the new state is an old record, or it is the one fresh record, which
     belongs to the depositor, is unpaid, and whose liquidity and fee (both non-negative) add up to the deposit -/
 def cmb2_DepFrame (c c' : State) (dep : Nat) (amount : Int) (k0 : Nat × Nat) : Prop :=
-  (∀ b, getBook c k0.1 = some b → b.getPart k0.2 = none) ∧
+  0 ≤ amount ∧ (∀ b, getBook c k0.1 = some b → b.getPart k0.2 = none) ∧
   ∀ u b' i p', getBook c' u = some b' → b'.getPart i = some p' →
     (∃ b, getBook c u = some b ∧ b.getPart i = some p') ∨
     ((u, i) = k0 ∧ p'.addr = dep ∧ p'.liq + p'.fee = amount ∧ 0 ≤ p'.liq ∧ 0 ≤ p'.fee ∧ p'.crl = p'.liq ∧ p'.isSettled = false)
@@ -161,8 +161,9 @@ theorem cmb2_houseDepositO_frame {s : State} {r : State × Nat} {c : Nat} {tk : 
     ∃ k0, cmb2_DepFrame s r.1 (depositFor c pd) a k0 := by
   unfold houseDepositO at h
   simp only [bind, Option.bind_eq_some_iff, pure, Option.some.injEq] at h
-  obtain ⟨_, _, _, _, _, _, s1, hs1, _, _, mk, _, b, hb, _, _, _, _, _, _, _, hnew, s2, hs2, s3, hs3, rfl⟩ := h
+  obtain ⟨_, hpos, _, _, _, _, s1, hs1, _, _, mk, _, b, hb, _, _, _, _, _, _, _, hnew, s2, hs2, s3, hs3, rfl⟩ := h
   have hnew := chk_some hnew
+  have hpos : 0 < a := of_decide_eq_true (chk_some hpos)
   obtain ⟨gs, rfl⟩ := grantStep_shape hs1
   obtain ⟨bal2, ht2, rfl⟩ := bankSend_shape hs2
   obtain ⟨bal3, ht3, rfl⟩ := bankSend_shape hs3
@@ -181,7 +182,7 @@ theorem cmb2_houseDepositO_frame {s : State} {r : State × Nat} {c : Nat} {tk : 
   have hnone : b.getPart (b.partCount + 1) = none := by simpa using hnew
   obtain ⟨ap, au⟩ := cmb2_addParticipation_parts b (depositFor c pd) (a - (s.params.houseFee.mulInt a).roundInt)
     (s.params.houseFee.mulInt a).roundInt
-  refine ⟨(m, b.partCount + 1), ?_, ?_⟩
+  refine ⟨(m, b.partCount + 1), by omega, ?_, ?_⟩
   · intro bx hbx
     have hbx' : getBook s m = some bx := hbx
     rw [hb0] at hbx'
@@ -220,7 +221,7 @@ theorem cmb2_DepFrame.partsOK {c c' : State} {dep : Nat} {amount : Int} {k0 : Na
     (h : cmb2_DepFrame c c' dep amount k0) (hP : cmb2_PartsOK c) (hs : cmb2_Srt c') : cmb2_PartsOK c' := by
   apply cmb2_partsOK_of_get hs
   intro u b' i p' hb' hp'
-  rcases h.2 u b' i p' hb' hp' with ⟨b, hb, hp⟩ | ⟨_, _, _, h1, h2, h3, _⟩
+  rcases h.2.2 u b' i p' hb' hp' with ⟨b, hb, hp⟩ | ⟨_, _, _, h1, h2, h3, _⟩
   · exact cmb2_partsOK_get hP hb hp
   · exact ⟨h2, h1, by rw [h3]; exact Int.le_refl _⟩
 
@@ -330,5 +331,112 @@ theorem cmb2_WdFrame.partsOK {c c' : State} {dep : Nat} {w : Int} {k0 : Nat × N
   · rw [e]
     have := h0.crl
     exact ⟨h0.fee, by show 0 ≤ p0.liq - w; omega, by show p0.crl - w ≤ p0.liq - w; omega⟩
+
+end Sge.Core
+
+namespace Sge.Core
+open Sge Sge.Genesis
+
+-- ---------------------------------------------------------------------------------------------
+-- every core operation
+
+/-- every core operation other than a house deposit / withdrawal is quiet -/
+theorem cmb2_step_quiet (s : State) (op : Op) (hA : RetAll s) (hP : cmb2_PartsOK s)
+    (hnd : ∀ c tk m a pd, op ≠ .deposit c tk m a pd) (hnw : ∀ c tk m i md a pd, op ≠ .withdraw c tk m i md a pd) :
+    cmb2_Quiet s (step s op).1 := by
+  cases op with
+  | marketAdd cr tk u st en o stt =>
+    simp only [step, marketAdd, commit]
+    cases h : marketAddO s cr tk u st en o stt with
+    | none => exact cmb2_Quiet.refl hP
+    | some c' => exact cmb2_marketAddO_quiet hP h
+  | marketUpdate tk u st en stt =>
+    simp only [step, marketUpdate, commit]
+    cases h : marketUpdateO s tk u st en stt with
+    | none => exact cmb2_Quiet.refl hP
+    | some c' =>
+      unfold marketUpdateO at h
+      simp only [bind, Option.bind_eq_some_iff, pure, Option.some.injEq] at h
+      obtain ⟨_, _, _, _, _, _, _, _, _, _, rfl⟩ := h
+      exact cmb2_Quiet.of_books rfl hP
+  | marketResolve tk u ts stt w =>
+    simp only [step, marketResolve, commit]
+    cases h : marketResolveO s tk u ts stt w with
+    | none => exact cmb2_Quiet.refl hP
+    | some c' =>
+      unfold marketResolveO at h
+      simp only [bind, Option.bind_eq_some_iff, pure, Option.some.injEq] at h
+      obtain ⟨_, _, _, _, _, _, _, _, _, _, rfl⟩ := h
+      exact cmb2_Quiet.of_books rfl hP
+  | deposit cr tk m a pd => exact absurd rfl (hnd cr tk m a pd)
+  | withdraw cr tk m i md a pd => exact absurd rfl (hnw cr tk m i md a pd)
+  | wager cr tk u a pl =>
+    simp only [step, wager, commit]
+    cases h : wagerO s cr tk u a pl with
+    | none => exact cmb2_Quiet.refl hP
+    | some c' => exact cmb2_wagerO_quiet hA.sett.cmb2_srt hP h
+  | grant g e k l ex => exact cmb2_Quiet.of_books rfl hP
+  | revoke g e k => exact cmb2_Quiet.of_books rfl hP
+  | send a b v =>
+    simp only [step]
+    split
+    · exact cmb2_Quiet.refl hP
+    · simp only [commit]
+      cases h : bankSend s a b v with
+      | none => exact cmb2_Quiet.refl hP
+      | some c' =>
+        obtain ⟨bal', _, rfl⟩ := bankSend_shape h
+        exact cmb2_Quiet.of_books rfl hP
+  | setParams p =>
+    simp only [step]
+    split
+    · exact cmb2_Quiet.of_books rfl hP
+    · exact cmb2_Quiet.refl hP
+  | endBlock =>
+    simp only [step, endBlock]
+    cases h : endBlockO s with
+    | none => exact cmb2_Quiet.refl hP
+    | some s' => exact cmb2_endBlockO_quiet hA hP h
+  | newBlock h t => exact cmb2_Quiet.of_books rfl hP
+
+/-- the record-level facts are kept by every core operation -/
+theorem cmb2_step_partsOK (s : State) (op : Op) (hA : RetAll s) (hP : cmb2_PartsOK s) (hwf : op.userSigned') :
+    cmb2_PartsOK (step s op).1 := by
+  have hsrt : cmb2_Srt (step s op).1 := (step_settleInv s op hA.sett hwf).cmb2_srt
+  cases op with
+  | deposit cr tk m a pd =>
+    simp only [step, houseDeposit] at hsrt ⊢
+    cases h : houseDepositO s cr tk m a pd with
+    | none => exact hP
+    | some r =>
+      rw [h] at hsrt
+      obtain ⟨k0, hf⟩ := cmb2_houseDepositO_frame h
+      exact hf.partsOK hP hsrt
+  | withdraw cr tk m i md a pd =>
+    simp only [step, houseWithdraw, commit] at hsrt ⊢
+    cases h : houseWithdrawO s cr tk m i md a pd with
+    | none => exact hP
+    | some c' =>
+      rw [h] at hsrt
+      obtain ⟨w, p0, _, hf⟩ := cmb2_houseWithdrawO_frame h
+      exact hf.partsOK hP hsrt
+  | marketAdd cr tk u st en o stt => exact (cmb2_step_quiet s _ hA hP (by intros; simp) (by intros; simp)).partsOK hP hsrt
+  | marketUpdate tk u st en stt => exact (cmb2_step_quiet s _ hA hP (by intros; simp) (by intros; simp)).partsOK hP hsrt
+  | marketResolve tk u ts stt w => exact (cmb2_step_quiet s _ hA hP (by intros; simp) (by intros; simp)).partsOK hP hsrt
+  | wager cr tk u a pl => exact (cmb2_step_quiet s _ hA hP (by intros; simp) (by intros; simp)).partsOK hP hsrt
+  | grant g e k l ex => exact (cmb2_step_quiet s _ hA hP (by intros; simp) (by intros; simp)).partsOK hP hsrt
+  | revoke g e k => exact (cmb2_step_quiet s _ hA hP (by intros; simp) (by intros; simp)).partsOK hP hsrt
+  | send a b v => exact (cmb2_step_quiet s _ hA hP (by intros; simp) (by intros; simp)).partsOK hP hsrt
+  | setParams p => exact (cmb2_step_quiet s _ hA hP (by intros; simp) (by intros; simp)).partsOK hP hsrt
+  | endBlock => exact (cmb2_step_quiet s _ hA hP (by intros; simp) (by intros; simp)).partsOK hP hsrt
+  | newBlock h t => exact (cmb2_step_quiet s _ hA hP (by intros; simp) (by intros; simp)).partsOK hP hsrt
+
+theorem cmb2_run_partsOK (s : State) (ops : List Op) (hA : RetAll s) (hP : cmb2_PartsOK s) (hwf : ∀ op ∈ ops, op.userSigned') :
+    cmb2_PartsOK (run s ops) := by
+  induction ops generalizing s with
+  | nil => exact hP
+  | cons op rest ih =>
+    have h1 := hwf op (List.mem_cons_self ..)
+    exact ih _ (step_retAll s op hA h1) (cmb2_step_partsOK s op hA hP h1) (fun o ho => hwf o (List.mem_cons_of_mem _ ho))
 
 end Sge.Core
